@@ -1,0 +1,16 @@
+//go:build verif
+
+package config
+
+// Contracts for the verification framework in /verif (comment-only file, build tag `verif`).
+
+//@ pure time.ParseDuration strconv.ParseInt
+
+// C18 / C10: settings are either absent, rejected (a value does not parse) or stored as parsed.
+//@ func (*HookConfigV1).CheckAndConvertSettings
+//@   prop C18, C10
+//@   modifies nothing
+//@   ensures [absent]   settings == nil ==> result0 == nil && result1 == nil
+//@   ensures [rejected] settings != nil ==> (result1 != nil) == (errof(time.ParseDuration(settings.ExecutionMinInterval)) != nil || errof(strconv.ParseInt(settings.ExecutionBurst, 10, 32)) != nil)
+//@   ensures [stored]   settings != nil && result1 == nil ==> result0 != nil && result0.ExecutionMinInterval == time.ParseDuration(settings.ExecutionMinInterval)
+//@        && result0.ExecutionBurst == strconv.ParseInt(settings.ExecutionBurst, 10, 32)
